@@ -635,6 +635,7 @@ static void checkConfiguration(World& w, int i, const Op& op, const Obs& before,
 	int nReal = 0;
 	std::vector<int> touched(size_t(sh.n), 0);   // by how many requests a region's choice may have been evaluated
 	std::vector<int> reqBeforeLast; std::vector<int> howBeforeLast;   // expectations before the last real request was applied
+	std::vector<std::vector<int>> reqAt;                              // per approved request: the expectations before it was applied
 	std::vector<std::set<int>> earlierPath(size_t(sh.n));              // prongs the paths of earlier requests assign, each request on its own
 	// scheduling requests issued by guards are applied in a later round that consults nobody
 	for (auto& e : h.trace) if (e.k == EV_ISSUE && e.a == K_SCHEDULE) { Tr t; t.kind = K_SCHEDULE; t.dest = e.b; r.apply(t, 1000); }
@@ -644,6 +645,7 @@ static void checkConfiguration(World& w, int i, const Op& op, const Obs& before,
 	int lastReal = -1; for (size_t k = 0; k < st.approved.size(); ++k) if (st.approved[k].kind != K_SCHEDULE) lastReal = int(k);
 	for (size_t k = 0; k < st.approved.size(); ++k) {
 		const Tr& q = st.approved[k];
+		reqAt.push_back(r.req);
 		if (int(k) == lastReal) { reqBeforeLast = r.req; howBeforeLast = r.how; }
 		else if (q.kind != K_SCHEDULE && q.dest >= 0 && q.dest < sh.n && int(k) < lastReal) { int c2 = q.dest; for (int p2 = sh.st[size_t(q.dest)].parent; p2 >= 0; c2 = p2, p2 = sh.st[size_t(p2)].parent) if (sh.isCompo(p2)) earlierPath[size_t(p2)].insert(sh.st[size_t(c2)].prong); }
 		if (q.kind != K_SCHEDULE && q.dest >= 0 && q.dest < sh.n) {
@@ -707,12 +709,12 @@ static void checkConfiguration(World& w, int i, const Op& op, const Obs& before,
 		const bool isUtil = how == K_UTILIZE || how == K_RANDOMIZE;
 		if (isUtil && (s.node->caps() & CAP_BUILTIN_RNG) && how == K_RANDOMIZE) continue;
 		const char* oracle = isUtil ? (how == K_UTILIZE ? "C12.utilize" : "C12.randomize") : "C02.choice";
-		if (isUtil ? !w12 : !w02) continue;
+		if (isUtil ? !w12 : !w02) { if (ca.active[size_t(g)] != r.req[size_t(g)]) r.dontCare[size_t(g)] = 1; continue; }   // the other lens judges this region; nothing is predicted below a choice that differs
 		w.checked(oracle);
 		if (how == K_RANDOMIZE) { w.probe("random_region_resolved"); if (r.probe_exactBoundary) w.probe("draw_exactly_on_boundary"); }
 		if (ca.active[size_t(g)] == r.req[size_t(g)]) continue;
-		if (isUtil && std::find(r.alts[size_t(g)].begin(), r.alts[size_t(g)].end(), ca.active[size_t(g)]) != r.alts[size_t(g)].end()) { w.probe("utility_within_rounding"); continue; }
-		if (isUtil) { bool fragileBelow = false; for (int x = g + 1; x < g + sh.st[size_t(g)].size; ++x) if (sh.isCompo(x) && !r.alts[size_t(x)].empty()) fragileBelow = true; if (fragileBelow) { w.probe("nested_choice_within_rounding"); continue; } }
+		if (isUtil && std::find(r.alts[size_t(g)].begin(), r.alts[size_t(g)].end(), ca.active[size_t(g)]) != r.alts[size_t(g)].end()) { w.probe("utility_within_rounding"); r.dontCare[size_t(g)] = 1; continue; }
+		if (isUtil) { bool fragileBelow = false; for (int x = g + 1; x < g + sh.st[size_t(g)].size; ++x) if (sh.isCompo(x) && !r.alts[size_t(x)].empty()) fragileBelow = true; if (fragileBelow) { w.probe("nested_choice_within_rounding"); r.dontCare[size_t(g)] = 1; continue; } }
 		if (r.conflict[size_t(g)] || touched[size_t(g)] > 1) {
 			std::snprintf(b, sizeof b, "%s: region %d: requests of one batch disagree; the later one prescribes sub-state %d but %d is active", h.role.c_str(), g, r.req[size_t(g)], ca.active[size_t(g)]);
 			// documented: a region an earlier request already resolved (as a sibling, by evaluation, or as its destination) is forwarded to, not re-resolved
@@ -720,15 +722,36 @@ static void checkConfiguration(World& w, int i, const Op& op, const Obs& before,
 			if (!reqBeforeLast.empty() && reqBeforeLast[size_t(g)] >= 0 && howBeforeLast[size_t(g)] == 100 && r.how[size_t(g)] != 100 && !(lastReal >= 0 && st.approved[size_t(lastReal)].dest == g)) continue;
 			const bool earlierResolved = !reqBeforeLast.empty() && reqBeforeLast[size_t(g)] >= 0;     // by resolution, or by the path of an earlier request: either way the slot is taken and the later request is forwarded past it
 			const bool earlierEvaluated = touched[size_t(g)] > 1 && (sh.usesUtility || nReal > 1);
+			// a request whose path set g (not the last one: P1 looks at that): did the climb stop below g (documented pattern)?
+			bool climbStopped = false;
+			if (r.how[size_t(g)] == 100 && r.setBy[size_t(g)] >= 0 && r.setBy[size_t(g)] < int(reqAt.size())) {
+				const int kq = r.setBy[size_t(g)]; const Tr& qq = st.approved[size_t(kq)];
+				std::vector<std::pair<int,int>> path; int c = qq.dest;
+				for (int p = sh.st[size_t(qq.dest)].parent; p >= 0; c = p, p = sh.st[size_t(p)].parent) if (sh.isCompo(p)) path.emplace_back(p, sh.st[size_t(c)].prong);
+				int stop = -1;
+				for (size_t lv = 1; lv < path.size(); ++lv) { const int rq = reqAt[size_t(kq)][size_t(path[lv].first)]; if ((rq < 0 || rq == path[lv].second) && cb.active[size_t(path[lv].first)] == path[lv].second) { stop = int(lv); break; } }
+				if (stop >= 0) for (size_t lv = size_t(stop) + 1; lv < path.size(); ++lv) if (path[lv].first == g) climbStopped = true;
+			}
 			const int gpar = sh.st[size_t(g)].parent;
 			const bool namedActiveUnderOrtho = lastReal >= 0 && st.approved[size_t(lastReal)].dest == g && gpar >= 0 && sh.isOrtho(gpar) && cb.active[size_t(g)] >= 0;
-			w.violate(oracle, b, i, namedActiveUnderOrtho ? "active_region_under_ortho_not_retargeted" : ((earlierResolved || earlierEvaluated) && r.how[size_t(g)] != 100 ? "batch_later_request_not_overriding" : "")); return;
+			w.violate(oracle, b, i, namedActiveUnderOrtho ? "active_region_under_ortho_not_retargeted" : climbStopped ? "batch_later_request_not_overriding" : ((earlierResolved || earlierEvaluated) && r.how[size_t(g)] != 100 ? "batch_later_request_not_overriding" : "")); return;
 		}
 		// a destination region that is already active below an orthogonal parent is not re-targeted by the library (documented)
 		std::string tag;
 		const int gp = sh.st[size_t(g)].parent;
 		bool destIsG = false; for (auto& q : st.approved) if (q.dest == g) destIsG = true;
 		if (destIsG && cb.active[size_t(g)] >= 0 && gp >= 0 && sh.isOrtho(gp) && ca.active[size_t(g)] == cb.active[size_t(g)]) tag = "active_region_under_ortho_not_retargeted";
+		// ... and then nothing below the named region is re-resolved either
+		if (tag.empty()) for (auto& q : st.approved) {
+			const int d = q.dest; if (q.kind == K_SCHEDULE || d < 0 || d >= sh.n || !sh.isCompo(d) || d >= g || !sh.inSubtree(g, d)) continue;
+			const int dp = sh.st[size_t(d)].parent;
+			if (dp < 0 || !sh.isOrtho(dp) || cb.active[size_t(d)] < 0) continue;
+			bool same = true; for (int x = d; x < d + sh.st[size_t(d)].size; ++x) if (sh.isCompo(x) && ca.active[size_t(x)] != cb.active[size_t(x)]) same = false;
+			if (same) tag = "active_region_under_ortho_not_retargeted";
+		}
+		// documented: a later request of the batch is forwarded through every orthogonal region both paths share into the branches earlier requests marked;
+		// an orthogonal region entered as a whole by an earlier request has no marks of its own, so everything below it is resolved again - by the later request's kind
+		if (tag.empty() && nReal > 1 && r.setBy[size_t(g)] >= 0 && r.setBy[size_t(g)] < lastReal) { bool orthoAbove = false; for (int x = sh.st[size_t(g)].parent; x >= 0; x = sh.st[size_t(x)].parent) if (sh.isOrtho(x)) orthoAbove = true; if (orthoAbove) tag = "batch_later_kind_reresolves_ortho_entered"; }
 		std::snprintf(b, sizeof b, "%s: after %zu approved request(s) region %d has sub-state %d active; the rule '%s' prescribes %d (rnd=%.9g)", h.role.c_str(), st.approved.size(), g, ca.active[size_t(g)],
 			how == 100 ? "path to destination" : kindName(how), r.req[size_t(g)], double(r.rnd()));
 		w.violate(oracle, b, i, tag); return;
